@@ -4,10 +4,10 @@
 
 namespace {
 
-enum RKind { R_VAL = 0, R_EXC, R_DROP, R_MOVECALL, R_MOVEDIE, R_ASSIGN, R_NOP, R_NKINDS };
-static const char *rk_names[] = {"val", "exc", "drop", "mvcall", "mvdie", "assign", "nop"};
-enum WKind { W_NONE = 0, W_WAIT, W_CORO, W_HASV };
-static const char *wk_names[] = {"none", "wait", "coro", "hasv"};
+enum RKind { R_VAL = 0, R_EXC, R_DROP, R_MOVECALL, R_MOVEDIE, R_ASSIGN, R_START, R_NOP, R_NKINDS };
+static const char *rk_names[] = {"val", "exc", "drop", "mvcall", "mvdie", "assign", "start", "nop"};
+enum WKind { W_NONE = 0, W_WAIT, W_CORO, W_HASV, W_COHASV, W_NWK };
+static const char *wk_names[] = {"none", "wait", "coro", "hasv", "cohasv"};
 
 // scratch: 0..3 ret of resolver i (1 true, 2 false, 3 claimed-by-move-and-died, 4 move got nothing), 8: waiter kind seen, 9: waiter value
 enum { S_RET = 0, S_WK = 8, S_WV = 9, S_WDONE = 10 };
@@ -96,6 +96,19 @@ static bool call_value(cocls::promise<T> &p, int i) {
         return Tr<T>::call(p, i);
 }
 
+// resolver kind 'start': an async coroutine bound to the shared promise with start(promise). It competes for the claim
+// like any other call; when it loses, the coroutine must not even start ("leaves no trace")
+template <typename T>
+static cocls::async<T> producer(int i, int *ran) {
+    ++*ran;
+    if constexpr (std::is_void_v<T>)
+        co_return;
+    else if constexpr (std::is_same_v<T, int &>)
+        co_return g_refs[i];
+    else
+        co_return T(100 + i);
+}
+
 template <typename T>
 static void resolver(cocls::promise<T> &p, int i, int kind) {
     static const char *labels[] = {"r0", "r1", "r2", "r3"};
@@ -114,6 +127,14 @@ static void resolver(cocls::promise<T> &p, int i, int kind) {
             cocls::promise<T> q(std::move(p));
             s[S_RET + i] = q ? 3 : 4;
             break;  // q dies here: resolves to no-value if it holds the claim
+        }
+        case R_START: {
+            int ran = 0;
+            bool ok = producer<T>(i, &ran).start(p);
+            if (!ok && ran) vrt_fail("future/loser-left-trace", "start(promise) lost the claim (returned false) but the coroutine body ran %d times", ran);
+            if (ok && ran != 1) vrt_fail("future/winner-did-not-run", "start(promise) reported success but the coroutine body ran %d times", ran);
+            s[S_RET + i] = ok ? 1 : 2;
+            break;
         }
         case R_ASSIGN:
             // move-assigning over the live promise drops what it pointed to (resolution to no-value); nothing is reported
@@ -149,6 +170,17 @@ static cocls::async<void> coro_waiter(cocls::future<T> &f) {
 }
 
 template <typename T>
+static cocls::async<void> cohasv_waiter(cocls::future<T> &f) {
+    int64_t *s = vrt_scratch();
+    bool hv = co_await f.has_value();
+    Obs o = observe(f);
+    if (hv != (o.kind != 3)) vrt_fail("future/has_value-mismatch", "co_await has_value()=%d but value() reports kind %d", (int)hv, o.kind);
+    s[S_WK] = o.kind;
+    s[S_WV] = o.val;
+    s[S_WDONE]++;
+}
+
+template <typename T>
 static void waiter(cocls::future<T> &f, int wk) {
     vrt_label("waiter");
     int64_t *s = vrt_scratch();
@@ -174,6 +206,8 @@ static void waiter(cocls::future<T> &f, int wk) {
         s[S_WDONE]++;
     } else if (wk == W_CORO) {
         coro_waiter<T>(f).detach();
+    } else if (wk == W_COHASV) {
+        cohasv_waiter<T>(f).detach();
     } else if (wk == W_HASV) {
         bool hv = f.has_value();  // blocks until resolved
         Obs o = observe(f);
@@ -213,7 +247,7 @@ static void scenario(int n, const int *kinds, int wk) {
         expect.kind = 3;
     else {
         int k = kinds[win];
-        if (k == R_VAL || k == R_MOVECALL) {
+        if (k == R_VAL || k == R_MOVECALL || k == R_START) {
             expect.kind = 1;
             expect.val = std::is_void_v<T> ? 0 : 100 + win;
         } else if (k == R_EXC) {
@@ -255,7 +289,7 @@ static void reg_type(const char *tname) {
                     if (nop && nop != n) continue;  // NOP rows: only "all NOP" (destruction alone resolves)
                     if (nop && n > 1) continue;
                     if (n == 1 && k[0] != R_NOP && k[0] != R_ASSIGN) continue;  // other single resolver rows add nothing
-                    for (int wk = 0; wk < 4; wk++) {
+                    for (int wk = 0; wk < W_NWK; wk++) {
                         std::string name = std::string("once_") + tname + "_";
                         for (int i = 0; i < n; i++) name += std::string(i ? "-" : "") + rk_names[k[i]];
                         name += std::string("_") + wk_names[wk];
